@@ -560,7 +560,8 @@ Section Replay.
     /\ j_entries (a_j (l_ad st)) = Some (J ++ keys_of (skipn n (l_hist st)))
     /\ l_fb st = 0%nat
     /\ a_purged (l_ad st) = (n <=? length (l_hist st))%nat
-    /\ d_o (l_db st) = ops_after (n <=? length (l_hist st))%nat (l_hist st).
+    /\ d_o (l_db st) = ops_after (n <=? length (l_hist st))%nat (l_hist st)
+    /\ l_tmo st = p_tmo (prog (l_hist st)).
 
   Hypothesis HR : replayable J.
 
@@ -580,7 +581,7 @@ Section Replay.
     destruct (prologue run (p_fid (prog hist)) (live ++ spawn next (p_pending (prog hist))) d a)
       as [[d1 a1] m] eqn:P.
     destruct (prologue_wf _ _ _ _ _ _ Hc Hr He _ _ _ P) as (Hd & He1 & Hi1 & Hc1 & Hm & Hp1 & Ho1).
-    unfold G. cbn [l_ad l_db l_hist l_mode l_live l_next l_fb].
+    unfold G. cbn [l_ad l_db l_hist l_mode l_live l_next l_fb l_tmo].
     split; [exact HS|]. split; [exact P2|]. split; [exact He1|].
     destruct (Nat.ltb_spec (length hist) n) as [Hlt|Hge].
     - (* still replaying *)
@@ -644,7 +645,7 @@ Section Replay.
     notmo (firstn n (l_hist (finish st pick))) = true ->
     G (finish st pick).
   Proof.
-    intros (Hc & He & Hr & Hi & Hk & Hoth & Hm) (G1 & G2 & G3 & G4 & G5 & G6) Hen Hok.
+    intros (Hc & He & Hr & Hi & Hk & Hoth & Hm) (G1 & G2 & G3 & G4 & G5 & G6 & G7) Hen Hok.
     rewrite He in G3. inversion G3 as [EE]. clear G3.
     unfold Journal.finish in *.
     destruct (resolve_cases run (l_live st) (l_mode st) pick (l_db st) (l_ad st))
@@ -771,7 +772,7 @@ Section Replay.
     /\ d_o (l_db st) = ops_after (n <=? length (l_hist st))%nat (l_hist st)
     /\ (notmo (l_hist st) = true -> replayable (J ++ keys_of (skipn n (l_hist st)))).
   Proof.
-    intros s st Hok. destruct (exec_G s Hok) as (G1 & G2 & G3 & G4 & G5 & G6). fold st in G1, G2, G3, G4, G5, G6.
+    intros s st Hok. destruct (exec_G s Hok) as (G1 & G2 & G3 & G4 & G5 & G6 & G7). fold st in G1, G2, G3, G4, G5, G6, G7.
     destruct (exec_from_InvU run prog d0 J s _ (init_InvU run prog d0 J d0_wf)) as [[F HJ] _].
     fold (exec d0 s) in HJ. fold st in HJ. destruct HJ as (_ & He & Hr & _).
     assert (EE : J ++ F = J ++ keys_of (skipn n (l_hist st))) by congruence. rewrite EE in Hr. clear G3.
@@ -838,6 +839,57 @@ Section Chain.
     repeat split; assumption.
   Qed.
 End Chain.
+
+(* ================= "the same result as an uninterrupted run" ================= *)
+(* Past the transition the recovered process is in the state ANY process with the same result history is in — in
+   particular the uninterrupted one (K = []): the live task instances, the uid counter, the armed timer, the journal
+   (object and table), the replay index, the wait mode and the purge flag are functions of the history alone.  What the
+   loop does next is a function of that state and of the environment's schedule. *)
+Theorem same_history_same_loop_state :
+  forall (run : Z) (prog : list (option Z) -> pinfo),
+  (forall h live nx, sim prog h = Some (h, live, nx) -> NoDup (map fst live)) ->
+  forall dA KA dB KB,
+  replayable prog KA -> rows_enum run dA KA -> replayable prog KB -> rows_enum run dB KB ->
+  forall sA sB,
+  let a := exec run prog dA sA in
+  let b := exec run prog dB sB in
+  notmo (firstn (length KA) (l_hist a)) = true -> notmo (firstn (length KB) (l_hist b)) = true ->
+  l_hist a = l_hist b ->
+  (length KA <= length (l_hist a))%nat -> (length KB <= length (l_hist b))%nat ->
+  l_live a = l_live b /\ l_next a = l_next b /\ l_tmo a = l_tmo b
+  /\ j_entries (a_j (l_ad a)) = j_entries (a_j (l_ad b))
+  /\ j_idx (a_j (l_ad a)) = j_idx (a_j (l_ad b))
+  /\ l_mode a = l_mode b
+  /\ a_purged (l_ad a) = a_purged (l_ad b)
+  /\ crud_load run (l_db a) = crud_load run (l_db b)
+  /\ l_fb a = l_fb b.
+Proof.
+  intros run prog Hd dA KA dB KB HRA HwA HRB HwB sA sB a b HokA HokB Hh HlA HlB.
+  destruct (exec_G run prog dA KA HRA HwA Hd sA HokA) as (A1 & A2 & A3 & A4 & A5 & A6 & A7).
+  destruct (exec_G run prog dB KB HRB HwB Hd sB HokB) as (B1 & B2 & B3 & B4 & B5 & B6 & B7).
+  fold a in A1, A2, A3, A4, A5, A6, A7. fold b in B1, B2, B3, B4, B5, B6, B7.
+  destruct (exec_from_InvU run prog dA KA sA _ (init_InvU run prog dA KA HwA)) as [[FA IA] _].
+  destruct (exec_from_InvU run prog dB KB sB _ (init_InvU run prog dB KB HwB)) as [[FB IB] _].
+  fold (exec run prog dA sA) in IA. fold (exec run prog dB sB) in IB. fold a in IA. fold b in IB.
+  destruct IA as (_ & EA & RA & _ & KiA & _ & MA). destruct IB as (_ & EB & RB & _ & KiB & _ & MB).
+  destruct (fresh_phase KA _ A2 HlA) as (_ & KA'). destruct (fresh_phase KB _ B2 HlB) as (_ & KB').
+  assert (EeA : KA ++ FA = keys_of (l_hist a)) by congruence.
+  assert (EeB : KB ++ FB = keys_of (l_hist b)) by congruence.
+  rewrite Hh in A1. rewrite B1 in A1. inversion A1 as [[Hlive Hnext]].
+  assert (Hent : j_entries (a_j (l_ad a)) = j_entries (a_j (l_ad b))) by (rewrite EA, EB, EeA, EeB, Hh; reflexivity).
+  assert (Hidx : j_idx (a_j (l_ad a)) = j_idx (a_j (l_ad b))) by (rewrite KiA, KiB, Hh; reflexivity).
+  split; [first [reflexivity | symmetry; exact Hlive | exact Hlive]|].
+  split; [first [reflexivity | symmetry; exact Hnext | exact Hnext]|].
+  split; [rewrite A7, B7, Hh; reflexivity|].
+  split; [exact Hent|]. split; [exact Hidx|].
+  split; [rewrite MA, MB, Hidx, <- Hlive, EeA, EeB, Hh; reflexivity|].
+  split.
+  { rewrite A5, B5.
+    replace (length KA <=? length (l_hist a))%nat with true by (symmetry; now apply Nat.leb_le).
+    symmetry. now apply Nat.leb_le. }
+  split; [rewrite (load_enum _ _ _ RA), (load_enum _ _ _ RB), EeA, EeB, Hh; reflexivity|].
+  now rewrite A4, B4.
+Qed.
 
 (* ================= the purge at the replay -> fresh transition, on ANY table content ================= *)
 Theorem purge_stale_spec run fid d j E :
